@@ -272,17 +272,23 @@ func doPair(ctx *hx.Ctx, pc *PairCase) {
 		return // the sync code hangs on this tree: reported already, do not pile up stuck goroutines
 	}
 	class, summary, found := runPair(ctx, pc)
+	if strings.HasSuffix(class, "-hang") {
+		ctx.Cov.Count("timeout_retried")
+		class, summary, found = runPair(ctx, pc)
+	}
 	nontrivial := pc.Mode == "fork" || pc.Mode == "heavier" || (pc.Mode == "prefix" && pc.RemoteLen-pc.Div > 1)
 	ctx.Cov.Case(pairCanonical(pc), nontrivial, pc)
 	ctx.Cov.Count("pair_mode_" + pc.Mode)
 	ctx.Cov.Bucket("pair_head", pc.Div+pc.LocalExtra)
-	if class != "" && !reported(ctx, class) {
-		if strings.HasSuffix(class, "-hang") {
+	if strings.HasSuffix(class, "-hang") {
+		hangs++ // counted even when the class was reported before
+		if !reported(ctx, class) {
 			ctx.Violation(class, summary, pc, found) // no shrinking of hanging cases (each attempt costs the time-out)
-			hangs++
-		} else {
-			ctx.Violation(class, summary, shrinkPair(ctx, pc, class), found)
 		}
+		return
+	}
+	if class != "" && !reported(ctx, class) {
+		ctx.Violation(class, summary, shrinkPair(ctx, pc, class), found)
 	}
 }
 
